@@ -1,7 +1,9 @@
 --------------------------- MODULE SftpAttr_Trace ---------------------------
-(* code -> spec for C33.  One trace = one attribute set pushed through the real   *)
-(* SFTPAttributes._pack and the resulting bytes through the real _unpack, both on  *)
-(* a Message subclass that records every add_* / get_* call as a token:            *)
+(* code -> spec for C33.  One trace = a SEQUENCE of attribute sets (blocks), each   *)
+(* put on a newly created object, pushed through the real SFTPAttributes._pack and  *)
+(* the resulting bytes through the real _unpack into another new object, one after  *)
+(* the other in one process, on a Message subclass that records every add_* / get_*  *)
+(* call as a token.  Per block:                                                      *)
 (*   attrs  = the attribute set (limbs / byte lists; str keys and values as UTF-8)  *)
 (*   flags  = _flags after _pack,  wtoks = tokens _pack wrote                       *)
 (*   rflags = _flags of the decoded object, rtoks = tokens _unpack read, dec = its  *)
@@ -9,40 +11,53 @@
 (*   fractional = some time was given as a non-integer (attrs holds its int part)   *)
 (*   aborted = "" | "pack" | "unpack": the call raised or did not stop (the record    *)
 (*            then holds whatever state the objects were left in)                     *)
-(* Two steps per trace (the two critical sections); the design spec's clause        *)
-(* operators and its whole-set encoding PackTokens judge them.  Total.              *)
+(* Two steps per block (the two critical sections); the design spec's clause        *)
+(* operators and its whole-set encoding PackTokens judge each block against ITS OWN  *)
+(* input, so anything inherited from an earlier block fails a clause.  Total.        *)
+(* A verdict element is <<clause, number of the block>>.                             *)
 EXTENDS SftpAttr, Json, IOUtils, TLCExt
 Batch == JsonDeserialize(IOEnv.TRACE_FILE)
 VARIABLES tid, l, bad
 tvars == <<tid, l, bad, vars>>
-R == Batch[tid]
+T == Batch[tid]
+NB == Len(T.blocks)
+R == T.blocks[round]
+Tag(S) == {<<c, round>> : c \in S}
 
 TInit == /\ tid \in 1..Len(Batch) /\ l = 1 /\ bad = {}
-         /\ attrs = R.attrs
+         /\ attrs = T.blocks[1].attrs
          /\ pc = "PackFlags" /\ flags = <<0, 0>> /\ wire = <<>> /\ rpos = 0 /\ rflags = <<0, 0>> /\ dec = Empty
+         /\ leak = <<>> /\ round = 1
 
-\* _pack ran: the six Pack* steps at once, with the recorded result
-TPack == /\ l = 1
+\* _pack ran on the block's object: the six Pack* steps at once, with the recorded result
+TPack == /\ pc = "PackFlags"
          /\ flags' = R.flags /\ wire' = R.wtoks
-         /\ bad' = PackClauses(attrs, R.flags)
-                   \cup (IF R.wtoks = PackTokens(attrs) THEN {} ELSE {"C_wire_tokens"})
-                   \cup (IF R.aborted = "pack" THEN {"P_encode_failed"} ELSE {})
-         /\ pc' = "UnpackFlags" /\ l' = 2
-         /\ UNCHANGED <<tid, attrs, rpos, rflags, dec>>
+         /\ bad' = bad \cup Tag(PackClauses(attrs, R.flags)
+                              \cup (IF R.wtoks = PackTokens(attrs) THEN {} ELSE {"C_wire_tokens"})
+                              \cup (IF R.aborted = "pack" THEN {"P_encode_failed"} ELSE {}))
+         /\ pc' = "UnpackFlags" /\ l' = l + 1
+         /\ UNCHANGED <<tid, attrs, rpos, rflags, dec, leak, round>>
 
-\* _unpack ran on those bytes: the six Unpack* steps at once, with the recorded result
+\* _unpack ran on those bytes into a new object: the six Unpack* steps at once, with the recorded result
 Clauses == RoundTripClauses(attrs, R.dec, R.rflags)
-TUnpack == /\ l = 2
+TUnpack == /\ pc = "UnpackFlags"
            /\ dec' = R.dec /\ rflags' = R.rflags /\ rpos' = Len(R.rtoks)
-           /\ bad' = bad \cup (IF R.fractional /\ "P_times" \in Clauses
-                               THEN (Clauses \ {"P_times"}) \cup {"C_fractional_time_not_truncated"} ELSE Clauses)
-                         \cup (IF R.rtoks = wire THEN {} ELSE {"C_reader_tokens"})
-                         \cup (IF R.aborted = "unpack" THEN {"P_decode_failed"} ELSE {})
-           /\ pc' = "done" /\ l' = 3
-           /\ UNCHANGED <<tid, attrs, flags, wire>>
+           /\ bad' = bad \cup Tag((IF R.fractional /\ "P_times" \in Clauses
+                                    THEN (Clauses \ {"P_times"}) \cup {"C_fractional_time_not_truncated"} ELSE Clauses)
+                                \cup (IF R.rtoks = wire THEN {} ELSE {"C_reader_tokens"})
+                                \cup (IF R.aborted = "unpack" THEN {"P_decode_failed"} ELSE {}))
+           /\ pc' = "done" /\ l' = l + 1
+           /\ UNCHANGED <<tid, attrs, flags, wire, leak, round>>
 
-TNext == TPack \/ TUnpack
+\* the next block of the sequence: the spec's NextBlock with the recorded input
+TNextBlock == /\ pc = "done" /\ round < NB
+              /\ attrs' = T.blocks[round + 1].attrs
+              /\ pc' = "PackFlags" /\ flags' = <<0, 0>> /\ wire' = <<>> /\ rpos' = 0 /\ rflags' = <<0, 0>> /\ dec' = Empty
+              /\ round' = round + 1 /\ l' = l + 1
+              /\ UNCHANGED <<tid, bad, leak>>
+
+TNext == TPack \/ TUnpack \/ TNextBlock
 TSpec == TInit /\ [][TNext]_tvars
-Report == l = 3 => /\ (bad # {} => PrintT(<<"VERDICT", tid, bad>>))
-                   /\ PrintT(<<"DONE", tid>>)
+Report == (pc = "done" /\ round = NB) => /\ (bad # {} => PrintT(<<"VERDICT", tid, bad>>))
+                                        /\ PrintT(<<"DONE", tid>>)
 =============================================================================
